@@ -170,6 +170,14 @@ def ensure_runner():
                          cwd=OCAML, timeout=900)
             if rc != 0:
                 return False, "ocaml build failed:\n" + out[-3000:]
+        for exe in ("tbrunner",):
+            src = os.path.join(OCAML, exe + ".ml")
+            binp = os.path.join(OCAML, exe)
+            if os.path.exists(src) and ((not os.path.exists(binp)) or any(os.path.getmtime(x) > os.path.getmtime(binp) for x in [ml, src])):
+                rc, out = sh(["ocamlfind", "ocamlopt", "-O3", "-w", "-a", "model.mli", "model.ml", exe + ".ml", "-o", exe],
+                             cwd=OCAML, timeout=900)
+                if rc != 0:
+                    return False, "ocaml build failed:\n" + out[-3000:]
     return True, ""
 
 
@@ -398,6 +406,19 @@ PROPS["C19"] = dict(engine="tree", profiles=[("fifo", 3, False), ("fifo", 1, Tru
                     relevant=lambda f: f["kind"] in ({"fifo-deeper-level", "fifo-expired-kept", "fifo-not-oldest", "fifo-within-limits", "oracle-get", "oracle-contains", "oracle-range", "agree", "inv", "reopen-diff"} | COMMON_KINDS),
                     nontrivial=lambda st: st.get("fifo_effective", 0) >= 1 and st.get("flush_steps", 0) >= 2 and st.get("gets_from_tables", 0) >= 1)
 
+PROPS["C11"] = dict(engine="multi", profiles=[("tree", 1, False), ("ingest", 1, False), ("tree", 1, True), ("drop", 1, False)], n_ops=100,
+                    quick=40, thorough=1000, k=dict(quick=(4, 3), thorough=(8, 4)),
+                    relevant=lambda f: f["kind"] in ({"config-diff", "oracle-get", "oracle-contains", "oracle-range", "oracle-prefix", "oracle-len", "oracle-first", "oracle-last", "oracle-isempty", "agree", "inv", "readpaths", "resolve", "reopen-diff", "marks"} | COMMON_KINDS),
+                    nontrivial=lambda st: st.get("flush_steps", 0) >= 1 and st.get("gets_from_tables", 0) >= 1)
+
+TB_KINDS = {"block-bytes", "block-decode", "block-decode-back", "impl-iter", "impl-iter-rev", "point-read", "point-read-model",
+            "bloom-bytes", "bloom-build", "bloom-false-negative", "bloom-decode", "bloom-contains", "encode-error", "bloom-reader-error",
+            "tbench-crash"}
+PROPS["C12"] = dict(engine="tree", profiles=[("table", 3, False), ("table", 1, True)], n_ops=0,
+                    quick=64, thorough=2000, tbench=dict(quick=96, thorough=6000),
+                    relevant=lambda f: f["kind"] in (TB_KINDS | {"oracle-get", "oracle-contains", "oracle-range", "readpaths", "inv", "reopen-diff", "agree", "resolve"} | COMMON_KINDS),
+                    nontrivial=lambda st: (st.get("point_reads_hit", 0) >= 1 and st.get("blocks", 0) >= 1) or (st.get("gets_from_tables", 0) >= 1 and st.get("reopen_compared", 0) >= 1))
+
 TRUSTED_BASE = [
     "Coq 8.16.1 kernel (coqc, full .vo builds; no native_compute)",
     "axioms: none (every property theorem prints 'Closed under the global context')",
@@ -405,6 +426,101 @@ TRUSTED_BASE = [
     "hand-written model (coq/Model/*.v) tied to /repo by this correspondence run: certificates check_inv_sv/content_agrees on full state dumps, Spec oracle on every read, model-vs-impl agreement of the compaction stream",
     "harness (Rust driver + dump through the crate's own Table::iter/scan and cfg(lsm_verif) read-only hooks), OCaml trace interpreter ocaml/runner.ml, this script",
 ]
+
+
+# ----------------------------------------------------------------------------- byte-level bench (C12)
+
+TBRUNNER = os.path.join(OCAML, "tbrunner")
+
+
+def run_tbench(seed0, count, outdir):
+    """data-block / Bloom byte-level differential; returns list of (name, trace, fails, drifts, stat)"""
+    os.makedirs(outdir, exist_ok=True)
+    per = max(1, (count + NPROC - 1) // NPROC)
+    jobs = []
+    s = seed0
+    while s < seed0 + count:
+        c = min(per, seed0 + count - s)
+        f = os.path.join(outdir, f"tb-{s}-{c}.txt")
+        jobs.append((s, c, f, subprocess.Popen([LSMV, "tbench", str(s), str(c), f], env=ENV, stdout=subprocess.PIPE, stderr=subprocess.STDOUT, text=True)))
+        s += c
+    results = []
+    for (s, c, f, p) in jobs:
+        out, _ = p.communicate(timeout=3000)
+        if p.returncode != 0:
+            results.append((f, f, [{"kind": "tbench-crash", "op": -1, "snap": 0, "optext": "", "detail": out[-300:], "line": "lsmv tbench crashed seed0=%d" % s}], [], {}))
+    def one(job):
+        s, c, f, _ = job
+        rc, out = sh([TBRUNNER, f], timeout=1200)
+        fails, stat = [], {}
+        for line in out.split("\n"):
+            if line.startswith("FAIL "):
+                m = re.match(r"FAIL kind=(\S+) case=(\S+) (.*)", line)
+                fails.append({"kind": m.group(1) if m else "unparsed", "op": -1, "snap": 0, "optext": "tbench-case-" + (m.group(2) if m else "?"),
+                              "detail": m.group(3) if m else line, "line": line, "tbench_case": m.group(2) if m else None})
+            elif line.startswith("STAT "):
+                for kv in line.split()[1:]:
+                    k, v = kv.split("=")
+                    stat[k] = int(v)
+        if rc != 0 or not stat:
+            fails.append({"kind": "runner-crash", "op": -1, "snap": 0, "optext": "", "detail": out[-300:], "line": "tbrunner rc=%d" % rc})
+        return (f, f, fails, [], stat)
+    with ThreadPoolExecutor(max_workers=NPROC) as ex:
+        results += list(ex.map(one, jobs))
+    return results
+
+
+# ----------------------------------------------------------------------------- multi-config / shared-cache engine (C11)
+
+def multi_engine(prop, tier, seed, count_override, coq):
+    spec = PROPS[prop]
+    t0 = time.time()
+    workdir = os.path.join(WORK, prop)
+    shutil.rmtree(workdir, ignore_errors=True)
+    os.makedirs(workdir, exist_ok=True)
+    total = count_override or spec[tier]
+    k_sep, k_shared = spec["k"][tier]
+    profiles = spec["profiles"]
+    jobs = []
+    for i in range(total):
+        prof, _, blob = profiles[i % len(profiles)]
+        jobs.append((seed * 1000003 + i, prof, blob, "sep" if i % 2 == 0 else "shared"))
+
+    def one(job):
+        sd, prof, blob, mode = job
+        hist = os.path.join(workdir, f"{sd}.hist")
+        rc, out = sh([LSMV, "gen", prof, str(sd), str(spec["n_ops"])] + (["blob"] if blob else []), timeout=120)
+        open(hist, "w").write(out)
+        k = k_sep if mode == "sep" else k_shared
+        prefix = os.path.join(workdir, f"{sd}-{mode}")
+        rc, out = sh([LSMV, "multi", hist, os.path.join(workdir, f"scratch-{sd}"), prefix, str(k), str(sd), mode], timeout=600)
+        shutil.rmtree(os.path.join(workdir, f"scratch-{sd}"), ignore_errors=True)
+        res = []
+        olines = []
+        for j in range(k):
+            tr = f"{prefix}.{j}.trace"
+            if not os.path.exists(tr):
+                res.append((hist, tr, [{"kind": "fatal", "op": -1, "snap": 0, "optext": "", "detail": "multi run produced no trace: " + out[-200:], "line": "multi run failed"}], [], {}))
+                continue
+            fails, drifts, stat = analyse_trace(tr)
+            stat["trees"] = 1
+            stat["shared_cache_trees" if mode == "shared" else "config_variants"] = 1
+            res.append((hist, tr, fails, drifts, stat))
+            olines.append([l for l in open(tr) if l.startswith("O ")])
+        if mode == "sep" and olines:
+            for j in range(1, len(olines)):
+                if olines[j] != olines[0]:
+                    d = next((a.strip() + " <> " + b.strip() for a, b in zip(olines[0], olines[j]) if a != b), "different number of observations")
+                    res[j][2].append({"kind": "config-diff", "op": -1, "snap": 0, "optext": "", "detail": d[:300], "line": "FAIL kind=config-diff trees 0 and %d answer differently: %s" % (j, d[:300])})
+                else:
+                    res[j][4]["config_pairs_equal"] = 1
+        return res
+
+    all_results = []
+    with ThreadPoolExecutor(max_workers=NPROC) as ex:
+        for r in ex.map(one, jobs):
+            all_results += r
+    return finish(prop, tier, seed, spec, all_results, [], coq, workdir, t0)
 
 
 # ----------------------------------------------------------------------------- tree engine
@@ -426,6 +542,10 @@ def tree_engine(prop, tier, seed, count_override, coq):
     for i, h in enumerate(corpus):
         fails, drifts, stat, trace = run_one(h, cdir, f"c{i}")
         all_results.append((h, trace, fails, drifts, stat))
+    # byte-level bench
+    if spec.get("tbench"):
+        n = (count_override or spec["tbench"][tier])
+        all_results += run_tbench(seed * 7919, n, os.path.join(workdir, "tbench"))
     # generated
     s0 = seed * 1000003
     for pi, (profile, w, blob) in enumerate(spec["profiles"]):
@@ -465,6 +585,12 @@ def finish(prop, tier, seed, spec, all_results, gen_errs, coq, workdir, t0):
     reported = []
     for (hist, text, rel) in violations[:3]:
         f0 = rel[0]
+        if f0.get("tbench_case"):
+            hid = "tbench-" + f0["tbench_case"]
+            rp = os.path.join(EVID, "replays", f"{prop}-{hid}.txt")
+            open(rp, "w").write("# replay: harness/target/debug/lsmv tbench %s 1 /tmp/case.txt && ocaml/tbrunner /tmp/case.txt\n# failure: %s\n" % (f0["tbench_case"], f0["line"]))
+            reported.append((rp, f0))
+            continue
         pred = lambda f, k=f0["kind"]: f["kind"] == k and relevant(f)
         small = shrink(text, workdir, pred, budget_s=90) if text else text
         # re-run the shrunk history to get its failure lines
@@ -566,5 +692,7 @@ def run_check(prop, tier, seed, replay, count_override):
     eng = PROPS[prop]["engine"]
     if eng == "tree":
         return tree_engine(prop, tier, seed, count_override, coq)
+    if eng == "multi":
+        return multi_engine(prop, tier, seed, count_override, coq)
     print("no engine")
     return 2
